@@ -223,6 +223,24 @@ func (m *Machine) constValue(c *ssa.Const) value {
 }
 
 func (m *Machine) store(p *value, v value) {
+	// aggregates are assigned in place so that addresses of their fields/elements taken
+	// earlier (FieldAddr/IndexAddr) stay valid
+	switch nv := v.(type) {
+	case structure:
+		if cur, ok := (*p).(structure); ok && len(cur) == len(nv) {
+			for i := range nv {
+				m.store(&cur[i], nv[i])
+			}
+			return
+		}
+	case array:
+		if cur, ok := (*p).(array); ok && len(cur) == len(nv) {
+			for i := range nv {
+				m.store(&cur[i], nv[i])
+			}
+			return
+		}
+	}
 	if m.journaling {
 		m.journal = append(m.journal, undo{p: p, old: *p})
 	}
